@@ -69,6 +69,19 @@ static std::string expected_request(const ReqSpec& s)
         std::vector<std::string> ps;
         for (auto& kv : queries()[s.query])
             ps.push_back(kv.first + "=" + kv.second);
+        {
+            // a query written into the resource string itself arrives as well
+            std::string own = resources()[s.resource].ownQuery;
+            size_t p        = 0;
+            while (p < own.size())
+            {
+                size_t e = own.find('&', p);
+                if (e == std::string::npos)
+                    e = own.size();
+                ps.push_back(own.substr(p, e - p));
+                p = e + 1;
+            }
+        }
         std::sort(ps.begin(), ps.end());
         for (size_t i = 0; i < ps.size(); ++i)
             q += (i ? "&" : "") + ps[i];
